@@ -441,6 +441,13 @@ func (pso *PubSubOwner) UnmarshalXML(d *xml.Decoder, start xml.StartElement) err
 				if err != nil {
 					return err
 				}
+			case "set":
+				if tt.Name.Space != "http://jabber.org/protocol/rsm" {
+					break
+				}
+				rs := ResultSet{}
+				err = d.DecodeElement(&rs, &tt)
+				pso.ResultSet = &rs
 			}
 			if err != nil {
 				return err
